@@ -161,9 +161,7 @@ def add_plus_one(
 
     carries = _get_new_labels(circuit, out_len, other_restrictions=result_labels)
     circuit.add_gate(Gate(carries[0], gate.IFF, (input_labels[0],)))
-    circuit.add_gate(
-        Gate(result_labels[0], gate.NOT, (input_labels[0],))
-    ).mark_as_output(result_labels[0])
+    circuit.add_gate(Gate(result_labels[0], gate.NOT, (input_labels[0],)))
 
     for i in range(1, out_len):
         if i < inp_len:
@@ -182,15 +180,13 @@ def add_plus_one(
             circuit.add_gate(Gate(result_labels[i], gate.IFF, (carries[i - 1],)))
         else:
             circuit.add_gate(Gate(result_labels[i], gate.ALWAYS_FALSE, tuple()))
-        if add_outputs:
-            circuit.mark_as_output(result_labels[i])
 
     if big_endian:
-        input_labels = input_labels[::-1]
         result_labels = result_labels[::-1]
 
-    circuit.order_inputs(input_labels)
-    circuit.order_outputs(result_labels)
+    if add_outputs:
+        for label in result_labels:
+            circuit.mark_as_output(label)
     return result_labels
 
 
